@@ -122,6 +122,26 @@ def limit_dtypes(cx, n=2, case="f32_upper"):
     return "ok"
 
 
+def constant_integrand(cx, n=2, how="param"):
+    """degree-0 integrands that hand back an EXISTING tensor (their stored coefficient) instead of computing a new one: the
+    result is c*(xu-xl) and the caller's tensor is left untouched"""
+    c = cx.sym("c", (2,))
+    xl = cx.sym("xl", ())
+    xu = cx.sym("xu", ())
+    snapshot = c.clone()
+    with torch.no_grad():
+        if how == "param":
+            res = quad(lambda x, c_: c_, xl, xu, params=(c,), n=n)
+        else:
+            res = quad(lambda x: c, xl, xu, n=n)
+    xi, om = _reference_rule(n)
+    wsum = sum(float(w) for w in om)        # = 2 up to 1e-16 (checked exactly in the rule scenarios)
+    ref = sum(snapshot * ((xu - xl) * 0.5 * float(w)) for w in om)
+    cx.claim_eq("integral of a constant = c * sum of the scaled reference weights", res, ref)
+    cx.claim_eq("the caller's tensor is unchanged", c, snapshot)
+    return "ok"
+
+
 def infinite(cx, n=2, which="both"):
     """x = tan(t) substitution: points tan(t_i), weights omega_i*(tu-tl)/2 / cos(t_i)^2"""
     xi, om = _reference_rule(n)
@@ -195,6 +215,9 @@ def configs(tier):
     for which in ("both", "upper", "lower"):
         add("infinite/n2/%s" % which, infinite, n=2, which=which)
     add("infinite/n3/both", infinite, n=3, which="both")
+    add("constant_integrand/n2/param", constant_integrand, n=2, how="param")
+    add("constant_integrand/n3/closure", constant_integrand, n=3, how="closure")
+    add("constant_integrand/n1/param", constant_integrand, n=1, how="param")
     for case in ("f32_upper", "f32_both", "int_upper"):
         add("limit_dtypes/n3/%s" % case, limit_dtypes, n=3, case=case)
     add("tuple_linear/n1", tuple_and_linear, n=1)
